@@ -415,7 +415,7 @@ func (c *signCtx) transfer(st signState, x ssa.Instruction) {
 			if c.getField(st, a, "Coeff") != sNN && len(w.flow(g, i, -1).UERead["Coeff"]) > 0 {
 				decNN = false
 			}
-		} else if c.get(st, a) != sNN && !w.storageParam(g, i) && w.roles(g)[i] != RoleDest {
+		} else if c.get(st, a) != sNN && !w.storageParam(g, i) && w.roles(g)[i] != RoleDest && !c.onlyNil(a) {
 			bigNN = false
 		}
 	}
@@ -449,6 +449,20 @@ func (c *signCtx) transfer(st signState, x ssa.Instruction) {
 			c.set(st, a, res, x)
 		}
 	}
+}
+
+// onlyNil: v is the nil pointer on every path (it denotes no integer whose sign could matter).
+func (c *signCtx) onlyNil(v ssa.Value) bool {
+	roots := c.prov.roots(v)
+	if len(roots) == 0 {
+		return false
+	}
+	for _, l := range roots {
+		if l.Root.Kind != RNil {
+			return false
+		}
+	}
+	return true
 }
 
 // getField / setField address the Coeff of a Decimal pointer value.
